@@ -5,6 +5,17 @@ Applies each stored seeded change to /repo (git apply), runs the quick tier of t
 meta.json ("checks") and in /verif/seeded/RESULTS.md.  Needs a clean /repo working tree; nothing is committed there."""
 import json, os, subprocess, sys, time
 
+def _save_evidence():
+    import shutil, os
+    shutil.rmtree("/verif/target/tmp/evidence.bak", ignore_errors=True); os.makedirs("/verif/target/tmp", exist_ok=True)
+    shutil.copytree("/verif/evidence", "/verif/target/tmp/evidence.bak")
+def _restore_evidence():
+    # runs against a patched /repo must not leave their evidence behind: evidence files describe the unchanged tree only
+    import shutil, os
+    if os.path.isdir("/verif/target/tmp/evidence.bak"):
+        shutil.rmtree("/verif/evidence", ignore_errors=True); shutil.copytree("/verif/target/tmp/evidence.bak", "/verif/evidence")
+import atexit; _save_evidence(); atexit.register(_restore_evidence)
+
 def sh(cmd, cwd=None):
     r = subprocess.run(cmd, shell=True, capture_output=True, text=True, cwd=cwd)
     return r.returncode, r.stdout + r.stderr
